@@ -24,6 +24,7 @@ type trailEntry struct {
 	Desc string
 	Opq  bool
 	Der  bool
+	Fact *floatFact // Interp.Terms only: the float comparison decided here
 }
 
 type Frame struct {
@@ -46,6 +47,9 @@ type oracleEvent struct {
 	Out  []AV
 	Pos  string
 }
+
+// oracleFunc lists the possible outcomes (result tuples) of one oracle call.
+type oracleFunc func(it *Interp, s *State, args []AV) [][]AV
 
 type State struct {
 	heap   map[int]AV
@@ -108,7 +112,13 @@ type Interp struct {
 	allocLimit func(n int64, in ssa.Instruction, s *State) string // optional: judge allocation sizes
 	// Oracles: module functions that are not entered; every call forks the
 	// path once per listed outcome (result tuple) and is logged in State.events.
-	Oracles map[*ssa.Function][][]AV
+	Oracles map[*ssa.Function]oracleFunc
+	// Terms: floats computed from identified unknowns carry their rational function (interp_terms.go)
+	Terms    bool
+	absAtoms map[string]int
+	absOf    map[int]*fterm
+	atomFn   map[int]string
+	atomArgs map[int][2]int
 	inputLen   int
 }
 
@@ -623,6 +633,27 @@ func (it *Interp) jumpF(s *State, fr *Frame, to *ssa.BasicBlock, forked bool) {
 	fr.pc = 0
 }
 
+// factOf: the float comparison behind a branch condition, as terms.
+func (it *Interp) factOf(fr *Frame, cond ssa.Value, taken bool) *floatFact {
+	if !it.Terms {
+		return nil
+	}
+	bo, ok := cond.(*ssa.BinOp)
+	if !ok {
+		return nil
+	}
+	a, ok1 := it.val(fr, bo.X).(FloatV)
+	b, ok2 := it.val(fr, bo.Y).(FloatV)
+	if !ok1 || !ok2 {
+		return nil
+	}
+	ta, tb := it.termOf(a), it.termOf(b)
+	if ta == nil || tb == nil {
+		return nil
+	}
+	return &floatFact{Op: bo.Op.String(), A: ta, B: tb, Taken: taken}
+}
+
 func (it *Interp) branchDesc(in ssa.Instruction, cond ssa.Value, taken bool) string {
 	return fmt.Sprintf("%s: %s is %v", it.p.InstrPos(in), condText(cond), taken)
 }
@@ -679,12 +710,12 @@ func (it *Interp) exec(s *State, fr *Frame, in ssa.Instruction) {
 			// partition the path
 			o := s.clone()
 			ofr := o.top()
-			o.trail = append(o.trail, trailEntry{Pos: it.p.InstrPos(x), Desc: it.branchDesc(x, x.Cond, false), Opq: c.Opq, Der: c.Der})
+			o.trail = append(o.trail, trailEntry{Pos: it.p.InstrPos(x), Desc: it.branchDesc(x, x.Cond, false), Opq: c.Opq, Der: c.Der, Fact: it.factOf(fr, x.Cond, false)})
 			it.refine(o, ofr, x.Cond, false)
 			if it.tryJump(o, ofr, fr.block.Succs[1]) {
 				it.work = append(it.work, o)
 			}
-			s.trail = append(s.trail, trailEntry{Pos: it.p.InstrPos(x), Desc: it.branchDesc(x, x.Cond, true), Opq: c.Opq, Der: c.Der})
+			s.trail = append(s.trail, trailEntry{Pos: it.p.InstrPos(x), Desc: it.branchDesc(x, x.Cond, true), Opq: c.Opq, Der: c.Der, Fact: it.factOf(fr, x.Cond, true)})
 			it.refine(s, fr, x.Cond, true)
 			it.jumpF(s, fr, fr.block.Succs[0], true)
 			return
@@ -1026,6 +1057,10 @@ func (it *Interp) unop(s *State, fr *Frame, x *ssa.UnOp) AV {
 			if n.Known {
 				return FloatV{Known: true, V: -n.V}
 			}
+			if t := it.termOf(n); t != nil {
+				it.nextSym++
+				return FloatV{Opq: n.Opq, Finite: n.Finite, Sym: it.nextSym, Term: termAdd(termConst(0), t, -1)}
+			}
 			return FloatV{Opq: n.Opq}
 		}
 	case token.XOR:
@@ -1206,6 +1241,19 @@ func (it *Interp) binop(s *State, fr *Frame, x *ssa.BinOp, a, b AV) AV {
 		if r, ok := infCompare(x.Op, av, bv); ok {
 			return r
 		}
+		if it.Terms && !av.Known && !bv.Known && av.Finite && bv.Finite {
+			// the same finite unknown on both sides
+			if ia, ok1 := atomOf(it.termOf(av)); ok1 {
+				if ib, ok2 := atomOf(it.termOf(bv)); ok2 && ia == ib {
+					switch x.Op {
+					case token.EQL, token.LEQ, token.GEQ:
+						return boolOf(true)
+					case token.NEQ, token.LSS, token.GTR:
+						return boolOf(false)
+					}
+				}
+			}
+		}
 		if r, ok := s.intervalCompare(x.Op, av, bv); ok {
 			return r
 		}
@@ -1220,10 +1268,27 @@ func (it *Interp) binop(s *State, fr *Frame, x *ssa.BinOp, a, b AV) AV {
 			// assumption: arithmetic on finite inputs neither overflows nor yields NaN
 			fin := func(f FloatV) bool { return f.Finite || f.Known && !math.IsInf(f.V, 0) && !math.IsNaN(f.V) }
 			it.nextSym++
-			return FloatV{Opq: opq, Finite: fin(av) && fin(bv), Sym: it.nextSym}
+			r := FloatV{Opq: opq, Finite: fin(av) && fin(bv), Sym: it.nextSym}
+			if ta, tb := it.termOf(av), it.termOf(bv); ta != nil && tb != nil {
+				switch x.Op {
+				case token.ADD:
+					r.Term = termAdd(ta, tb, 1)
+				case token.SUB:
+					r.Term = termAdd(ta, tb, -1)
+				case token.MUL:
+					r.Term = termMul(ta, tb)
+				}
+			}
+			return r
 		}
 		it.nextSym++
-		return FloatV{Opq: opq, Sym: it.nextSym}
+		r := FloatV{Opq: opq, Sym: it.nextSym}
+		if x.Op == token.QUO {
+			if ta, tb := it.termOf(av), it.termOf(bv); ta != nil && tb != nil {
+				r.Term = termDiv(ta, tb)
+			}
+		}
+		return r
 	case BoolV:
 		bv, ok := b.(BoolV)
 		if !ok {
